@@ -46,6 +46,7 @@ type Obligation struct {
 	Second  string
 	Watch   []watchTerm
 	KF      bool
+	sec     interface{} // *State at the start of the atomic section the obligation was created in
 	Auto    bool // claimed only through the automatic support closure (loop invariants of listed functions)
 	SMTFile string
 }
@@ -63,7 +64,7 @@ type VC struct {
 	writes  map[string]bool
 	abstracted []string
 	assumed    map[string]bool
-	regionEval func(src string) (string, error)
+	regionEval func(src string, sec interface{}) (string, error)
 	watch      []watchTerm
 }
 
